@@ -173,3 +173,34 @@ def go_outputs(tag, paths, per=10, fuel=FUEL):
             out[i]["stdout"] = bytes(nums)
             out[i]["ending"] = " ".join(ending.split())[:120]
     return out
+
+
+def go_pair_verdicts(tag, pairs, per=8, fuel=FUEL):
+    """pairs of Go ASTs (Rust Debug text): 0 same stdout and ending class, 1 differ, 2 outside the model / fuel, 4 a side is stuck"""
+    defs, idx = [], []
+    out = [None] * len(pairs)
+    for i, (a, b) in enumerate(pairs):
+        try:
+            ga = go2coq.file(rustdbg.parse(a))
+            gb = go2coq.file(rustdbg.parse(b))
+        except (go2coq.Conv, rustdbg.ParseError, KeyError, AssertionError, IndexError, ValueError) as e:
+            out[i] = {"verdict": None, "error": repr(e)[:300]}
+            continue
+        defs.append((i, "Module PA%d. Import Sem.GoAst Sem.GoSem. Definition r := run_go %s (N.to_nat %d). End PA%d.\nModule PB%d. Import Sem.GoAst Sem.GoSem. Definition r := run_go %s (N.to_nat %d). End PB%d.\n" % (i, ga, fuel, i, i, gb, fuel, i)))
+    texts, groups = [], []
+    for k in range(0, len(defs), per):
+        g = defs[k : k + per]
+        body = HEADER + "Definition gv (a b : str * Sem.GoSem.ending) : N := let ka := klass_go (snd a) in let kb := klass_go (snd b) in if (ka =? 4) || (kb =? 4) then 4 else if (ka =? 2) || (kb =? 2) then 2 else if (ka =? kb) && list_eqb (fst a) (fst b) then 0 else 1.\n"
+        body += "".join(d for _, d in g)
+        body += "Eval vm_compute in [%s].\n" % "; ".join("gv PA%d.r PB%d.r" % (i, i) for i, _ in g)
+        texts.append(body)
+        groups.append([i for i, _ in g])
+    outs = vlib.coq_eval_many(tag, texts, timeout=1500) if texts else []
+    for g, o in zip(groups, outs):
+        m = re.search(r"=\s*(\[.*?\])\s*:\s*list N", o, re.S)
+        if not m:
+            raise Broken("coq-output", o[-800:])
+        vs = vlib.parse_nat_list("= %s : list N" % m.group(1))
+        for i, v in zip(g, vs):
+            out[i] = {"verdict": v}
+    return out
